@@ -116,6 +116,7 @@ func verifC12_idleInvoker(threads int, cancels bool) {
 		})
 	}
 	rt.WaitAll()
+	rt.AssertUnlocked(&ii.lock, "the IdleInvoker's lock is released once everybody returned")
 	rt.AssertNoLocksHeld("IdleInvoker lock released")
 	rt.Assert(ii.useCount == 0, "use count back to zero when everybody released")
 	rt.Assert(ii.wakeup == nil, "no cleaning left in progress")
